@@ -73,6 +73,30 @@ def cases(tier, seed, shard, nshards):
         yield {"k": "mixed", "v1": grammar.value(r, o), "c": grammar._no_trailing_backslash(grammar._defuse(grammar.body(r, o, 1))), "pos": r.randrange(3)}
 
 
+def partners(t):
+    """Are the first and the last character of t a matching pair of delimiters (escapes read pairwise)?  '{a} # {b}' and
+    '"a" # "b"' start and end with delimiters that are NOT partners."""
+    if len(t) < 2 or (t[0], t[-1]) not in (("{", "}"), ('"', '"')):
+        return False
+    depth, run = 0, 0
+    for i, ch in enumerate(t):
+        if ch == "\\":
+            run += 1
+            continue
+        escaped, run = run % 2 == 1, 0
+        if escaped:
+            continue
+        if ch == "{":
+            depth += 1
+        elif ch == "}":
+            depth -= 1
+            if depth == 0 and t[0] == "{" and i < len(t) - 1:
+                return False
+        elif ch == '"' and depth == 0 and t[0] == '"' and 0 < i < len(t) - 1:
+            return False
+    return True
+
+
 def rule(v):
     t = v.strip()
     if len(t) >= 2 and t[0] == "{" and t[-1] == "}":
@@ -147,6 +171,7 @@ def check(case, ctx):
     cls = vclass(v)
     ctx.state(f"{case['k']}:{cls}")
     nontriv = False
+    literal_reading = []      # reported in addition; must not cut the other monitors short
     if case["k"] in ("str", "digits"):
         want_val, want_kind = rule(v)
         nontriv = cls in ("enclosed", "lone-quote", "lone-brace", "mixed-delims", "half-enclosed") or (cls == "digits")
@@ -168,6 +193,11 @@ def check(case, ctx):
             if any(val != want_val for _, val in got):
                 out.append(Violation("remove-rule", f"C10:remove-rule:{cls}", dict(value=v, got=got, want=want_val)))
                 break
+            if want_kind != "no-enclosing" and not partners(v.strip()) and not inplace:
+                # literal reading of "strips exactly one outer pair (nothing if there is none)": first and last delimiter are not
+                # partners, there is no outer pair - the library strips them all the same (known finding K5; everything else in
+                # this check follows the positional reading, on which the restore law and the default round trip rely)
+                literal_reading.append(Violation("remove-rule", "C10:remove-rule:first-and-last-delimiter-are-no-pair", dict(value=v, got=got)))
             md = e.parser_metadata.get("removed_enclosing")
             okind = rule(OTHER[len(str(v)) % len(OTHER)])[1]
             if md != {"title": want_kind, "Title": okind, "year": want_kind, "YEAR": okind} or s.parser_metadata.get("removed_enclosing") != want_kind:
@@ -271,7 +301,7 @@ def check(case, ctx):
         ctx.nontriv([case["k"], v])
         if ctx.cases % 499 == 0:
             ctx.sample(case)
-    return out
+    return out + literal_reading
 
 
 def mixed(case, ctx):
